@@ -1,23 +1,31 @@
-"""Registry of harness units per property (consumed by vcheck.py).
+"""Registry of harness units per property (consumed by vcheck.py): the union of
+tools/units.d/<property>.json (a JSON list of unit objects each).
 
 A unit = one `go test` process.
-  module "main": the unit's files (harness/inpkg/<src>/*.go) are mounted by
-      -overlay into /repo/<pkg> as zz_verif_*_test.go; the package's own
-      *_test.go files are hidden unless listed in keep_tests.
+  module "main" (default): the unit's files (harness/inpkg/<src>/*.go, or only
+      those named in "files") are mounted by -overlay into /repo/<pkg> as
+      zz_verif_*_test.go; the package's own *_test.go files are hidden unless
+      listed in keep_tests (or keep_all_tests is true).
   module "e2e":  a package of the stand-alone module harness/e2e (needs the
       unistore mock from pingcap/tidb; go.mod derived from
       /repo/integration_tests/go.mod with client-go replaced by /repo).
-Fields: property, name, pkg, src, run (test regex), race (default True),
-timeout_s {quick, thorough}, optional (white-box extension: a build failure is
-recorded as whitebox_unavailable, not as a broken check), race_is_violation
-(list of path fragments: a race report touching such a file is a violation).
+Fields: property, name, pkg, src, run (test regex), race (default true),
+timeout_s {quick, thorough}, env / env_quick / env_thorough, test_args,
+thorough_only, optional (white-box extension: a build failure is recorded as
+whitebox_unavailable, not as a broken check), race_is_violation (list of path
+fragments: a race report touching such a file is a violation), asan (thorough
+tier builds with -asan instead of -race).
 """
+import glob
+import json
+import os
 
-LEVELS = {pid: "exploration" for pid in ["C%02d" % i for i in range(1, 21)]}
-LEVELS.update({"C02": "fault_enumeration", "C03": "fault_enumeration"})
+_here = os.path.dirname(os.path.abspath(__file__))
+UNITS = []
+for _f in sorted(glob.glob(os.path.join(_here, "units.d", "*.json"))):
+    UNITS.extend(json.load(open(_f)))
 
-UNITS = [
-    # ---- C19 codec
-    dict(property="C19", name="c19-codec", pkg="./util/codec/", src="util_codec", run="^TestVerifC19",
-         timeout_s=dict(quick=300, thorough=1800)),
-]
+LEVELS = {"C%02d" % i: "exploration" for i in range(1, 21)}
+for _f in sorted(glob.glob(os.path.join(_here, "claims.d", "*.json"))):
+    _c = json.load(open(_f))
+    LEVELS[os.path.basename(_f)[:-5]] = _c.get("level", "exploration")
